@@ -906,10 +906,11 @@ func main() {
 	register(scenarioFamily())
 	register(readersFamily())
 	register(typedFamily())
+	register(decodersFamily())
 	core.Main(&core.Property{
 		ID:    "C11",
 		Level: "exploration",
-		Rule:  "histories: per family (group P-256/P-384/P-521/ristretto255 elements and scalars, BLS12-381 G1/G2/scalars, Goldilocks points and scalars, FourQ points; scenario family: CSIDH keys, ML-KEM/Kyber keys decoded into used objects, polynomial / secret-sharing objects whose inputs and outputs are mutated, expander / hash-to-group tags with spare capacity, threshold-RSA shares signed twice; typed-keys family: for the typed Pack / Unpack APIs of Kyber and ML-KEM (all sizes), Dilithium and ML-DSA (all modes) and both Ed-Dilithium composites, a history over two key pairs — refused and successful Unpack into the objects key generation returned, from buffers that are recycled at once — after which every object packs and behaves like the same key on fresh objects and untouched siblings are unchanged; readers family: every exported call that is handed a randomness source — group, secret sharing, DL / DLEQ / Qn-DLEQ provers, OPRF / EdDSA / ML-DSA / Dilithium / ML-KEM / Kyber / X-Wing / CSIDH / SIDH key generation, field sampling, HPKE sender setup, threshold-RSA dealing and blinded signing, blind RSA, CP-ABE encryption and key generation — run with the process-wide source replaced by a tripwire, twice with equal sources) 4..40 operations over a pool of 2..5 long-lived slots with deliberate aliasing (receiver = operand, operand = operand), receiver reuse, decode-into-used-object and mutate-returned-constant operations; after every operation: receiver = prediction of the value model on freshly built objects, every other slot unchanged, Generator()/Identity()/Order()/Params() unchanged. non-trivial = at least one operation executed on aliased or reused objects; distinct = distinct abstract trace (op kinds, aliasing pattern)",
+		Rule:  "histories: per family (group P-256/P-384/P-521/ristretto255 elements and scalars, BLS12-381 G1/G2/scalars, Goldilocks points and scalars, FourQ points; scenario family: CSIDH keys, ML-KEM/Kyber keys decoded into used objects, polynomial / secret-sharing objects whose inputs and outputs are mutated, expander / hash-to-group tags with spare capacity, threshold-RSA shares signed twice; typed-keys family: for the typed Pack / Unpack APIs of Kyber and ML-KEM (all sizes), Dilithium and ML-DSA (all modes) and both Ed-Dilithium composites, a history over two key pairs — refused and successful Unpack into the objects key generation returned, from buffers that are recycled at once — after which every object packs and behaves like the same key on fresh objects and untouched siblings are unchanged; decoders family: every entry point of the codec registry receives its (valid or faulted) input as a slice with live spare capacity and may neither change it nor write behind it; readers family: every exported call that is handed a randomness source — group, secret sharing, DL / DLEQ / Qn-DLEQ provers, OPRF / EdDSA / ML-DSA / Dilithium / ML-KEM / Kyber / X-Wing / CSIDH / SIDH key generation, field sampling, HPKE sender setup, threshold-RSA dealing and blinded signing, blind RSA, CP-ABE encryption and key generation — run with the process-wide source replaced by a tripwire, twice with equal sources) 4..40 operations over a pool of 2..5 long-lived slots with deliberate aliasing (receiver = operand, operand = operand), receiver reuse, decode-into-used-object and mutate-returned-constant operations; after every operation: receiver = prediction of the value model on freshly built objects, every other slot unchanged, Generator()/Identity()/Order()/Params() unchanged. non-trivial = at least one operation executed on aliased or reused objects; distinct = distinct abstract trace (op kinds, aliasing pattern)",
 		Assumptions: []string{
 			"an object is its canonical bytes (group membership and arithmetic are trusted: C12/C13 not claimed)",
 			"operations that panic on freshly built objects too (e.g. inverting zero) are skipped",
